@@ -1,4 +1,4 @@
-From CubedV Require Import Model.Util Model.Keys Model.Fusion Model.Memory Model.Dag Model.FuseGuard Proofs.MemoryProofs Proofs.FuseGuardProofs.
+From CubedV Require Import Model.Util Model.Keys Model.Fusion Model.Memory Model.Dag Model.FuseGuard Model.Admission Proofs.MemoryProofs Proofs.FuseGuardProofs Proofs.AdmissionProofs.
 Local Open Scope Z_scope.
 
 (* -- Memory.v -------------------------------------------------------------- *)
@@ -196,3 +196,37 @@ Example C04_guardZ_example :
   can_fuse_multipleZ {| v_bw := true; v_fpred := true; v_fsucc := true; v_ntasks := 3; v_proj := 900; v_allowed := 699; v_reserved := 100;
                v_nib := [2; 1]; v_chunkmem := 200 |} [Some pre; None] None = false.
 Proof. vm_compute. repeat split. Qed.
+
+(* -- Admission.v: Plan._find_ops_exceeding_memory / FinalizedPlan.validate in the shape the source is translated into -- *)
+Theorem C04_plan_refused_iff : forall nodes,
+  plan_refusedZ nodes = true <-> exists n op, In (n, Some op) nodes /\ v_proj op > v_allowed op.
+Proof. exact (plan_refused_iff). Qed.
+Print Assumptions C04_plan_refused_iff.
+
+Theorem C04_plan_accepted_iff : forall nodes,
+  plan_refusedZ nodes = false <-> forall n op, In (n, Some op) nodes -> v_proj op <= v_allowed op.
+Proof. exact (plan_accepted_iff). Qed.
+Print Assumptions C04_plan_accepted_iff.
+
+Theorem C04_equality_acceptedZ : forall n op, v_proj op = v_allowed op -> plan_refusedZ [(n, Some op)] = false.
+Proof. exact (equality_acceptedZ). Qed.
+Print Assumptions C04_equality_acceptedZ.
+
+Theorem C04_reported_is_worst : forall nodes n op rest,
+  find_exceedingZ nodes = (n, op) :: rest ->
+  In (n, Some op) nodes /\ v_proj op > v_allowed op /\
+  forall n' op', In (n', Some op') nodes -> v_proj op' > v_allowed op' -> v_proj op' <= v_proj op.
+Proof. exact (reported_is_worst). Qed.
+Print Assumptions C04_reported_is_worst.
+
+Theorem C04_plan_refused_pairs : forall nodes,
+  plan_refusedZ nodes = negb (plan_accepted (flat_map (fun t : nat * option pview =>
+     match snd t with Some op => [(v_proj op, v_allowed op)] | None => [] end) nodes)).
+Proof. exact (plan_refused_pairs). Qed.
+Print Assumptions C04_plan_refused_pairs.
+
+Example C04_admission_example :
+  let mk := fun pr al => Build_pview true true true 1 pr al 0 [1] 10 in
+  plan_refusedZ [(1%nat, None); (2%nat, Some (mk 100 100)); (3%nat, Some (mk 99 100))] = false /\
+  map fst (find_exceedingZ [(1%nat, None); (2%nat, Some (mk 101 100)); (3%nat, Some (mk 150 100)); (4%nat, Some (mk 100 100))]) = [3%nat; 2%nat].
+Proof. vm_compute. split; reflexivity. Qed.
